@@ -1,6 +1,7 @@
 package agent
 
 import (
+	"context"
 	"errors"
 	"fmt"
 	"time"
@@ -159,4 +160,42 @@ func VerifC20EarlyWait() {
 	verifapi.Assert(returned, "c20.wait-returns-after-loop-ends")
 	verifapi.Assert(failed == byFailure, "c20.wait-reports-the-loops-result")
 	verifapi.Assert(verifapi.LiveGoroutines() == 0, "c20.stop-ends-the-loop")
+}
+
+// VerifC20ForcedUpdate: while the agent runs, somebody forces a keep-alive
+// round (Agent.UpdatePeers is exported for that) and the pool is slow to
+// answer it. Meanwhile the agent can still be told to start (refused, at
+// once) or to stop (the loop ends and waiting returns); the forced round
+// finishes when the pool answers.
+func VerifC20ForcedUpdate() {
+	node := &verifNode{ua: ethnode.UserAgent{Kind: ethnode.Geth}}
+	script := &verifPoolScript{}
+	a := &Agent{EthNode: node}
+	err := a.Start(script)
+	verifapi.Quiesce()
+	verifapi.Assert(err == nil && verifapi.LiveGoroutines() == 1, "c20.start-succeeds")
+	script.gate = make(chan struct{})
+	forced := make(chan error, 1)
+	go func() { forced <- a.UpdatePeers(context.Background(), script) }()
+	verifapi.Quiesce() // the forced round is now waiting for the pool
+	stopped := false
+	switch verifapi.Choose("meanwhile", 3) {
+	case 0:
+		verifapi.Assert(a.Start(script) == ErrAlreadyStarted, "c20.second-start-refused")
+	case 1:
+		a.Stop()
+		verifapi.Quiesce()
+		stopped = true
+		verifapi.Assert(verifapi.LiveGoroutines() == 1, "c20.stop-ends-the-loop") // only the forced round is left
+		verifapi.Assert(a.Wait() == nil, "c20.wait-returns-after-stop")
+	}
+	close(script.gate)
+	verifapi.Quiesce()
+	verifapi.Reach("c20.forced")
+	verifapi.Assert(<-forced == nil, "c20.forced-round-completes")
+	want := 1
+	if stopped {
+		want = 0
+	}
+	verifapi.Assert(verifapi.LiveGoroutines() == want, "c20.exactly-one-loop")
 }
